@@ -309,7 +309,10 @@ def run_pairs(block, ctx):
             ctx.states += 1
             u = refacl.union(ga, gb)
             case = {"kind": "pair", "a": [r.to_json() for r in ra], "b": [r.to_json() for r in rb_], "forest": forest}
-            if not subtree_unordered(u, gab):
+            # (%prio is the language's explicit override: a rule lifted above another generator's rules is meant to win,
+            #  so the monotone-merge law is claimed for ACLs that do not use it; merges with %prio are judged against the
+            #  reference filter in part mpair)
+            if not subtree_unordered(u, gab) and not (uses_prio(ra) or uses_prio(rb_)):
                 ctx.violation({"kind": "merge-not-monotone", "shape": merge_shape(ra, rb_)}, case,
                               "A:%r B:%r A+B:%r" % (ga, gb, gab))
             exp = refacl.ref_filter(lvl, forest, PREFIX)
@@ -318,6 +321,10 @@ def run_pairs(block, ctx):
             if mcenum.size(gab) > max(mcenum.size(ga), mcenum.size(gb)):
                 ctx.nontrivial += 1
             ctx.outcomes["pair:%s" % ("equal" if mcenum.size(gab) == mcenum.size(u) else "merged-passes-more")] += 1
+
+
+def uses_prio(rules):
+    return any(r.prio is not None or uses_prio(r.children) for r in rules)
 
 
 def merge_shape(ra, rb_):
@@ -448,6 +455,6 @@ def replay(case):
         ga = to_list(patching.apply_acl(cfg, compile_text(ta)))
         gb = to_list(patching.apply_acl(cfg, compile_text(tb)))
         gab = to_list(patching.apply_acl(cfg, compile_text(combined)))
-        if not subtree_unordered(refacl.union(ga, gb), gab):
+        if not subtree_unordered(refacl.union(ga, gb), gab) and not (uses_prio(ra) or uses_prio(rb_)):
             rep({"kind": "merge-not-monotone", "shape": merge_shape(ra, rb_)}, case, "A:%r B:%r A+B:%r" % (ga, gb, gab))
     return out
